@@ -33,7 +33,7 @@ import time
 import vlib
 
 NATIVE = "c09.native"
-NQUICK = 40
+NQUICK = 32
 HELPERS = "c09.helpers"
 
 # ------------------------------------------------------------------ s-expressions
@@ -707,7 +707,8 @@ def observe(rc, out, err):
     lines = out.split("\n")
     if lines and lines[-1] == "":
         lines = lines[:-1]
-    return dict(kind=kind, lines=lines, err=(m.group(1), m.group(2).strip()) if m else None, status=rc, stderr=err[-1500:])
+    return dict(kind=kind, lines=lines, err=(m.group(1), m.group(2).strip()) if m else None, status=rc,
+                stderr=err if len(err) <= 2400 else err[:900] + "\n[...]\n" + err[-1500:])
 
 
 def model_obs(s):
@@ -739,6 +740,10 @@ def obs_diff(a, b):
     if (a["status"] == 0) != (b["status"] == 0):
         return "exit-status", "%r vs %r" % (a["status"], b["status"])
     return None
+
+
+def invalid_call_site(stderr):
+    return "neither bytecode nor native" in stderr or "vm.(*Thread).opCallMethod" in stderr
 
 
 def panic_key(o):
@@ -1046,14 +1051,27 @@ def run_native_stream(ctx, h, m, elk, cases, tag, plain_n):
         if mo["err"]:
             st["errors_expected"] += 1
         fk = "bool-inspect" if has_bool_inspect(p) else feature_key(p)
+        if vo["kind"] != "run" or obs_diff(vo, mo):
+            # A corrupted call site of the bytecode VM (known finding) reads an arbitrary value as the method: what
+            # happens next (panic message, nil dereference, wrong interface conversion, an Elk-level error) varies from
+            # run to run.  Re-run up to 3 times; when any run shows the signature, report the canonical class once.
+            seen = [vo]
+            while len(seen) < 4 and not any(invalid_call_site(o["stderr"]) for o in seen):
+                seen.append(run_vm(cid))
+            sig = next((o for o in seen if invalid_call_site(o["stderr"])), None)
+            if sig is not None:
+                st["mismatches"] += 1
+                ctx.fail("vm-crash:invalid-call-site", "bytecode VM died on a program the native binary and the reference "
+                         "interpreter run alike; stderr: %s" % (sig["stderr"].strip().splitlines() or [""])[0][:200],
+                         stream=NATIVE, case=case, impl=sig["stderr"][-600:], model=exp[cid][:300],
+                         oracle="same stdout, uncaught-error report and exit status as the VM / the reference interpreter")
+                vo = dict(vo, kind="known-vm-crash")
         for name, o in (("vm", vo), ("native", no)):
+            if o["kind"] == "known-vm-crash":
+                continue
             if o["kind"] != "run":
                 st["mismatches"] += 1
                 key = "%s-%s:%s" % (name, o["kind"].replace("_", "-"), panic_key(o) if o["kind"] != "timeout" else "timeout")
-                if name == "vm" and ("neither bytecode nor native" in o["stderr"] or "vm.(*Thread).opCallMethod" in o["stderr"]):
-                    # a corrupted call site of the bytecode VM reads an arbitrary value as the method: the Go-level
-                    # manifestation (panic message, nil dereference) varies from run to run; one canonical class
-                    key = "vm-crash:invalid-call-site"
                 ctx.fail(key, "%s back end died (%s) on a program the reference interpreter runs to %s; stderr: %s" % (
                     name, o["kind"], "an uncaught %s" % mo["err"][0] if mo["err"] else "completion",
                     o["stderr"].strip().splitlines()[0][:200] if o["stderr"].strip() else ""),
